@@ -226,7 +226,7 @@ def rule_h1(ctx: Ctx, ex: Extractor) -> Optional[Dict[str, FuncInfo]]:
     vals = [attr_chain(v) for v in table.value.values]
     want = set(dirs) | set(quads)
     if set(keys) != want or len(keys) != len(set(keys)):
-        ctx.violation("C14-H1", init, table, f"handler table has keys {sorted(keys)}; the alphabets are {sorted(want)} (missing {sorted(want - set(keys))}, extra {sorted(set(keys) - want)})")
+        ctx.violation("C14-H1", init, table, f"handler table has keys {sorted(keys)}; the alphabets are {sorted(want)} (missing {sorted(want - set(keys))}, extra {sorted(set(keys) - want)})", robust=True)
         return None
     handlers: Dict[str, FuncInfo] = {}
     for k, v in zip(keys, vals):
@@ -237,14 +237,14 @@ def rule_h1(ctx: Ctx, ex: Extractor) -> Optional[Dict[str, FuncInfo]]:
             raise AnalysisError(f"PinWordUtil.{v[1]} vanished")
         handlers[k] = m
     if len({m.name for m in handlers.values()}) != len(handlers):
-        ctx.violation("C14-H1", init, table, "two letters share one handler")
+        ctx.violation("C14-H1", init, table, "two letters share one handler", robust=True)
         return None
     ctx.ok("C14-H1", init.where, f"handler table keys = QUADS + DIRS ({''.join(sorted(keys))}), eight distinct handlers", table, init)
     call = repo.need_method("PinWordUtil", "call")
     ctx.run(check_skeleton, ctx, "C14-H1", call, ["return self.caller[a0](a1)"], "call(char, pins) dispatches through the table")
     for nm, want_c in (("one", (1, 1)), ("half", (1, 2))):
         if ex.consts.get(nm) != want_c:
-            ctx.violation("C14-H1", init, init.node, f"self.{nm} is Fraction{ex.consts.get(nm)}; the templates need Fraction{want_c}")
+            ctx.violation("C14-H1", init, init.node, f"self.{nm} is Fraction{ex.consts.get(nm)}; the templates need Fraction{want_c}", robust=True)
     for name, (fn, kaxis, raxis) in ex.helpers.items():
         exp = name.split("_")
         if len(exp) == 2 and exp[0] in ("min", "max") and exp[1] in ("x", "y"):
@@ -252,7 +252,7 @@ def rule_h1(ctx: Ctx, ex: Extractor) -> Optional[Dict[str, FuncInfo]]:
                 ctx.ok("C14-H1", f"{ex.util.where}.{name}", f"{name} = {fn} over coordinate {kaxis}")
             else:
                 f = ex.util.methods[name]
-                ctx.violation("C14-H1", f, f.node, f"{name} computes {fn} by coordinate {kaxis} and returns coordinate {raxis}")
+                ctx.violation("C14-H1", f, f.node, f"{name} computes {fn} by coordinate {kaxis} and returns coordinate {raxis}", robust=True)
     return handlers
 
 
@@ -270,7 +270,7 @@ def rule_h2_h3(ctx: Ctx, ex: Extractor, handlers: Dict[str, FuncInfo]) -> Option
         if letter in QUADRANT:
             xe, ye = QUADRANT[letter]
             if len(h.branches) != 1 or h.branches[0][0] is not None:
-                ctx.violation("C14-H2", fi, fi.node, f"numeral {letter} makes a case analysis; an independent pin is placed unconditionally")
+                ctx.violation("C14-H2", fi, fi.node, f"numeral {letter} makes a case analysis; an independent pin is placed unconditionally", robust=True)
                 ok = False
                 continue
             _c, x, y, node = h.branches[0]
@@ -281,11 +281,11 @@ def rule_h2_h3(ctx: Ctx, ex: Extractor, handlers: Dict[str, FuncInfo]) -> Option
                 else:
                     ok = False
                     quadname = {"1": "north-east", "2": "north-west", "3": "south-west", "4": "south-east"}[letter]
-                    ctx.violation("C14-H2", fi, fi.node, f"numeral {letter} ({quadname} quadrant) sets {axis} = {got!r}; it must be {want.upper()}{axis.upper()}(all){'+1' if want == 'max' else '-1'}")
+                    ctx.violation("C14-H2", fi, fi.node, f"numeral {letter} ({quadname} quadrant) sets {axis} = {got!r}; it must be {want.upper()}{axis.upper()}(all){'+1' if want == 'max' else '-1'}", robust=True)
         else:
             c, d, side = DIRECTION[letter]
             if len(h.branches) != 2 or not h.else_fails:
-                ctx.violation("C14-H3", fi, fi.node, f"direction {letter}: expected the two cases 'previous pin beyond the maximum / below the minimum of the earlier pins' and failure otherwise")
+                ctx.violation("C14-H3", fi, fi.node, f"direction {letter}: expected the two cases 'previous pin beyond the maximum / below the minimum of the earlier pins' and failure otherwise", robust=True)
                 ok = False
                 continue
             seen = set()
@@ -307,10 +307,10 @@ def rule_h2_h3(ctx: Ctx, ex: Extractor, handlers: Dict[str, FuncInfo]) -> Option
                 if problems:
                     good_all = False
                     for p in problems:
-                        ctx.violation("C14-H3", fi, node, f"direction {letter}: {p}")
+                        ctx.violation("C14-H3", fi, node, f"direction {letter}: {p}", robust=True)
             if seen != {"max", "min"}:
                 good_all = False
-                ctx.violation("C14-H3", fi, fi.node, f"direction {letter} handles only the case(s) {sorted(seen)}")
+                ctx.violation("C14-H3", fi, fi.node, f"direction {letter} handles only the case(s) {sorted(seen)}", robust=True)
             if good_all:
                 ctx.ok("C14-H3", fi.where, f"direction {letter}: separates in {c} (midpoint with the earlier extreme on the previous pin's side), advances {d} beyond {side.upper()}{d.upper()}(all)", fi.node, fi)
             else:
@@ -409,7 +409,7 @@ def rule_h4(ctx: Ctx, ex: Extractor, descr: Dict[str, Handler]) -> None:
     lp = outer[0]
     word = unparse(lp.target)
     if unparse(lp.iter.args[0]) != f"{gen.params[1]} - 1":
-        ctx.violation("C14-H4", gen, lp, f"words of length n are built from words of length `{unparse(lp.iter.args[0])}`")
+        ctx.violation("C14-H4", gen, lp, f"words of length n are built from words of length `{unparse(lp.iter.args[0])}`", robust=True)
         return
     base = [st for st in gen.body if isinstance(st, ast.If)]
     if not (base and unparse(base[0].test) == f"{gen.params[1]} == 0" and unparse(base[0].body[0]) in ("yield ''",)):
@@ -448,11 +448,11 @@ def rule_h4(ctx: Ctx, ex: Extractor, descr: Dict[str, Handler]) -> None:
     collect(lp.body, [])
     alphabet = set(dirs) | set(quads)
     if set(yields) != alphabet:
-        ctx.violation("C14-H4", gen, lp, f"the enumerator appends the letters {sorted(yields)}; the alphabet is {sorted(alphabet)}")
+        ctx.violation("C14-H4", gen, lp, f"the enumerator appends the letters {sorted(yields)}; the alphabet is {sorted(alphabet)}", robust=True)
         return
     for ch, gs in yields.items():
         if len(gs) != 1:
-            ctx.violation("C14-H4", gen, lp, f"letter {ch} is appended at {len(gs)} places: words would be enumerated more than once")
+            ctx.violation("C14-H4", gen, lp, f"letter {ch} is appended at {len(gs)} places: words would be enumerated more than once", robust=True)
             return
     # ---- (i) every allowed transition is safe; (ia) numerals are always allowed (independent pins)
     histories: List[Optional[str]] = [None] + sorted(alphabet)
@@ -464,20 +464,20 @@ def rule_h4(ctx: Ctx, ex: Extractor, descr: Dict[str, Handler]) -> None:
             try:
                 allowed = True if g is None else eval_guard(g, word, hist)
             except IndexError:
-                ctx.violation("C14-H4", gen, lp, f"guard of letter {ch} indexes word[-1] on the empty word")
+                ctx.violation("C14-H4", gen, lp, f"guard of letter {ch} indexes word[-1] on the empty word", robust=True)
                 return
             cells += 1
             where = f"{gen.where}[{hist or 'empty'}->{ch}]"
             if allowed:
                 missing = requires[ch] - est
                 if missing:
-                    ctx.violation("C14-H4", gen, lp, f"the enumerator allows {ch!r} after {hist or 'the empty word'!r}, but the handler of {ch} requires {sorted(missing)} which {('the handler of ' + hist) if hist else 'an empty pin list'} does not establish: decoding this word fails")
+                    ctx.violation("C14-H4", gen, lp, f"the enumerator allows {ch!r} after {hist or 'the empty word'!r}, but the handler of {ch} requires {sorted(missing)} which {('the handler of ' + hist) if hist else 'an empty pin list'} does not establish: decoding this word fails", robust=True)
                 else:
                     ctx.ok("C14-H4", where, f"allowed; requires {sorted(requires[ch]) or '{}'} subset of established {sorted(est) or '{}'}")
             else:
                 # completeness of the language: a forbidden transition must really be undecodable, otherwise valid pin words are lost
                 if not (requires[ch] - est):
-                    ctx.violation("C14-H4", gen, lp, f"the enumerator forbids {ch!r} after {hist or 'the empty word'!r} although its handler's requirements are met: valid pin words are not enumerated")
+                    ctx.violation("C14-H4", gen, lp, f"the enumerator forbids {ch!r} after {hist or 'the empty word'!r} although its handler's requirements are met: valid pin words are not enumerated", robust=True)
                 else:
                     ctx.ok("C14-H4", where, f"forbidden; handler would lack {sorted(requires[ch] - est)}")
     # ---- (ii) the zero-coordinate failure test cannot fire (sign analysis; origin in the list => MAX >= 0 >= MIN)
@@ -492,7 +492,7 @@ def rule_h4(ctx: Ctx, ex: Extractor, descr: Dict[str, Handler]) -> None:
                     hf = [m for k, m in ex.util.methods.items() if k == f"char_{letter.lower()}"]
                     target = hf[0] if hf else None
                     if target is not None:
-                        ctx.violation("C14-H4", target, node if hasattr(node, "lineno") else target.node, f"letter {letter}: {axis} = {co!r} may be zero under its case condition; the decoder rejects a pin with a zero coordinate, so an enumerated word can fail to decode")
+                        ctx.violation("C14-H4", target, node if hasattr(node, "lineno") else target.node, f"letter {letter}: {axis} = {co!r} may be zero under its case condition; the decoder rejects a pin with a zero coordinate, so an enumerated word can fail to decode", robust=True)
     # ---- the origin stays in the list until the epilogue
     dec = repo.need_method("PinWords", "pinword_to_perm")
     import re as _re
@@ -504,13 +504,13 @@ def rule_h4(ctx: Ctx, ex: Extractor, descr: Dict[str, Handler]) -> None:
     lst = unparse(init[0].targets[0])
     rz = repo.need_method("PinWordUtil", "rzero")
     if unparse(rz.body[0]) not in ("return Fraction(0, 1)", "return Fraction(0)"):
-        ctx.violation("C14-H4", rz, rz.node, "rzero() is not the fraction zero: the origin is misplaced")
+        ctx.violation("C14-H4", rz, rz.node, "rzero() is not the fraction zero: the origin is misplaced", robust=True)
     loop = [st for st in dec.body if isinstance(st, ast.For)]
     if len(loop) != 1:
         raise AnalysisError(f"{dec.where}: decode loop not recognised")
     for n in ast.walk(loop[0]):
         if isinstance(n, ast.Call) and call_name(n) and call_name(n)[0] == lst and call_name(n)[-1] in ("pop", "remove", "clear", "insert", "sort", "reverse"):
-            ctx.violation("C14-H4", dec, n, f"the pin list is modified by {call_name(n)[-1]}() during decoding: the origin may leave the list (or the 'previous pin' is no longer last), invalidating the sign and extremality arguments")
+            ctx.violation("C14-H4", dec, n, f"the pin list is modified by {call_name(n)[-1]}() during decoding: the origin may leave the list (or the 'previous pin' is no longer last), invalidating the sign and extremality arguments", robust=True)
             return
     app = [n for n in ast.walk(loop[0]) if isinstance(n, ast.Call) and call_name(n) == (lst, "append")]
     if len(app) == 1:
